@@ -5,7 +5,6 @@ package c04
 
 import (
 	"fmt"
-	"os"
 	"sort"
 	"strings"
 	"sync"
@@ -366,9 +365,6 @@ func checkNext(idx int, p parsed, z *zone, t time.Time) (ran bool) {
 		class := classify(trs)
 		if len(trs) == 0 && offT%60 != 0 {
 			class = "no-transition/sub-minute-offset" // a constant offset that is not a whole number of minutes (Africa/Monrovia before 1972)
-		}
-		if os.Getenv("C04_DEBUG_SIG") != "" {
-			class += "@" + z.name
 		}
 		what := "is not the earliest matching instant"
 		switch {
@@ -737,6 +733,7 @@ func TestCheck(t *testing.T) {
 	rec.Note("require", []string{"parse.ok.sets_equal", "parse.refused.wrong-field-count", "parse.refused.out-of-range", "parse.refused.non-numeric", "parse.refused.inverted-range",
 		"parse.refused.zero-step", "parse.refused.unknown-name", "parse.refused.unknown-descriptor", "parse.refused.unknown-zone", "parse.refused.descriptor-disabled",
 		"next.search_crosses.ordinary", "next.search_crosses.midnight-gap", "next.search_crosses.non-hour-shift", "next.search_crosses.midnight-repeat",
+		"next.search_crosses.off-hour-boundary", "next.search_crosses.multi-hour-shift", "next.skipped_day_probe", "reference.self_checked_by_brute_force",
 		"next.either_day_rule", "next.expected_zero", "next.match_more_than_a_year_away", "next.t_in_other_location", "every.checked", "descriptor.sets_checked"})
 	rec.Note("tolerances", "a match later than t+1825 days but not later than the end of calendar year Y+5 may be returned or not; the unrestricted flag of '*/1' and of lists containing '*' is not judged; '?' outside the day fields, empty list items, '*-5' and similar shapes are not judged; the location of the returned Time is observed, not judged")
 	ks, zones := plan()
@@ -1184,6 +1181,13 @@ func runTrans(idx int, k kase) {
 func runSeeded(idx int, k kase) {
 	z := getZone(k.zone)
 	rng := mon.NewRNG("c04-seeded", idx)
+	if k.a%16 == 7 {
+		// the process's own time.Local: a schedule without prefix read at t.In(time.Local)
+		if lz := getZone("Local"); lz != nil && lz.loc == time.Local {
+			z = lz
+			rec.Count("next.zone_is_time.Local", 1)
+		}
+	}
 	for s := 0; s < 4; s++ {
 		l := pickLayout(rng)
 		body := fit(l, genSix(rng, s%2 == 0))
